@@ -2,7 +2,7 @@
 From Coq Require Import String.
 From Coq Require Import ZArith List Bool Lia.
 From Coq Require Import ZifyBool ZifyNat.
-From GCNP Require Import base.GoInt base.Bytes base.StrBytes base.Codec gen.Constants_gen spec.SpecTables model.Prim model.DataType
+From GCNP Require Import spec.SpecClean base.GoInt base.Bytes base.StrBytes base.Codec gen.Constants_gen spec.SpecTables model.Prim model.DataType
   model.MsgTypes model.Frame model.MsgRequests model.MsgErrors model.MsgResults
   proofs.PrimProofs proofs.DataTypeProofs proofs.CqlBytesLemmas proofs.FrameProofs proofs.MsgRequestsLib proofs.MsgErrorsProofs
   proofs.MsgResultsValid proofs.MsgResultsMeta
@@ -95,9 +95,7 @@ Proof.
   rewrite same_table_as_spec. destruct (forallb _ r); reflexivity.
 Qed.
 
-(* the types of the columns are defined by the version (not checked by the Go encoder) *)
-Definition column_type_defined (v : Z) (oc : option ColumnMetadata) : bool :=
-  match oc with Some c => match cm_Type c with Some t => spec_type_defined v t | None => false end | None => false end.
+(* column_type_defined: see spec/SpecClean.v *)
 
 Lemma col_spec_agree v g c : column_okb (Some c) = true -> column_type_defined v (Some c) = true ->
   exists ns, spec_col_spec v g c = Some ns /\ forallb notation_ok ns = true /\ ser_all ns = bytes_column g (Some c).
@@ -152,11 +150,7 @@ Proof. intro H. destruct (supported_cases _ H) as [->|[->|[->|[->|[->| ->]]]]]; 
 (* what the specification needs beyond RowsMetadata_okb (none of it is checked by the Go encoder):
    column types the version defines; Metadata_changed only with metadata ("the No_metadata flag has to be unset");
    no negative page number; Last_continuous_page only within continuous paging *)
-Definition rows_md_clean (v : Z) (md : RowsMetadata) : bool :=
-  forallb (column_type_defined v) (rm_Columns md)
-  && negb (MsgResultsValid.is_some (rm_NewResultMetadataId md) && (zlen (rm_Columns md) =? 0))
-  && (0 <=? rm_ContinuousPageNumber md)
-  && (negb (rm_LastContinuousPage md) || (rm_ContinuousPageNumber md >? 0)).
+(* rows_md_clean: see spec/SpecClean.v *)
 
 Lemma rows_md_agree v md : supported v -> RowsMetadata_okb v md = true -> rows_md_clean v md = true ->
   exists ns, spec_rows_metadata v md = Some (ns, rm_ColumnCount md) /\ forallb notation_ok ns = true /\
@@ -308,13 +302,7 @@ Proof. reflexivity. Qed.
 
 (* what the specification needs beyond PreparedResult_okb: a variables metadata (the Go encoder writes an empty one for nil),
    no result metadata id where the version has none (the Go encoder drops it), clean metadata *)
-Definition prepared_clean (v : Z) (m : PreparedResult) : bool :=
-  match pr_VariablesMetadata m with
-  | Some vm => forallb (column_type_defined v) (vm_Columns vm)
-  | None => false
-  end
-  && (spec_v5_or_dse2 v || negb (MsgResultsValid.is_some (pr_ResultMetadataId m)))
-  && match pr_ResultMetadata m with Some md => rows_md_clean v md | None => true end.
+(* prepared_clean: see spec/SpecClean.v *)
 
 Lemma agree_PreparedResult v m : supported v -> PreparedResult_okb v m = true -> prepared_clean v m = true ->
   spec_body_bytes v (M_PreparedResult m) = Some (bytes_result v (M_PreparedResult m)).
@@ -354,10 +342,7 @@ Qed.
 (* ---------- SCHEMA_CHANGE result ---------- *)
 (* beyond SchemaChangeResult_okb: fields that are irrelevant for the target are empty (the Go encoder silently drops
    them: see norm_SchemaChangeResult) *)
-Definition scr_clean (m : SchemaChangeResult) : bool :=
-  (if str_is (scr_Target m) SchemaChangeTargetKeyspace then is_nil (scr_Object m) else true)
-  && (if str_is (scr_Target m) SchemaChangeTargetFunction || str_is (scr_Target m) SchemaChangeTargetAggregate then true
-      else is_nil (scr_Arguments m)).
+(* scr_clean: see spec/SpecClean.v *)
 
 Lemma agree_SchemaChangeResult v m : supported v -> SchemaChangeResult_okb v m = true -> scr_clean m = true ->
   spec_body_bytes v (M_SchemaChangeResult m) = Some (bytes_result v (M_SchemaChangeResult m)).
